@@ -444,6 +444,7 @@ func (m *Monitors) after(o *Op, res string, pre *Pre) {
 		m.fail("C20", "%s%s panicked: %s", tag, o.Kind, o.Note)
 	}
 	m.relational(o, res, pre, s, bal, esc, dep, fee, sup)
+	m.c18(s)
 }
 
 func sortedInt64(m map[int64]*big.Int) []int64 {
